@@ -349,4 +349,6 @@ for _L in (1, 2, 3, 4):
 CONTRACTS[L + "c17_vlq_reader_inverts_writer"] = dict(
     params={"b": "bytes", "n": "int"}, requires="0 <= n and n < 2 ** 28 and is_vlq(b, n)", returns="None",
     ensures=[("reader-precondition-and-value", " or ".join(_RD))],
+    split=[{"assume": "n < 128"}, {"assume": "128 <= n and n < 16384"},
+           {"assume": "16384 <= n and n < 2097152"}, {"assume": "2097152 <= n"}],
     properties=["C17", "C16"], battery=None)
